@@ -802,14 +802,51 @@ func (c *Ctx) rangeLookupShape(f *ssa.Function, l *Loop) string {
 		}
 		return ia.Index, true
 	}
+	isLen := func(v ssa.Value) bool {
+		lc, isC := v.(*ssa.Call)
+		return isC && isBuiltinCall(lc, "len") && lc.Call.Args[0] == tab
+	}
+	// the number of entries that form complete pairs: len(t), or len(t) - len(t)%2
+	isPairedLen := func(v ssa.Value) bool {
+		if isLen(v) {
+			return true
+		}
+		bo, ok := v.(*ssa.BinOp)
+		if !ok || bo.Op != token.SUB || !isLen(bo.X) {
+			return false
+		}
+		m, ok := bo.Y.(*ssa.BinOp)
+		if !ok || m.Op != token.REM || !isLen(m.X) {
+			return false
+		}
+		k, isK := constIntArg(m.Y)
+		return isK && k == 2
+	}
 	isLastIdx := func(v ssa.Value) bool {
 		bo, ok := v.(*ssa.BinOp)
 		if !ok || bo.Op != token.SUB {
 			return false
 		}
 		k, isK := constIntArg(bo.Y)
-		lc, isC := bo.X.(*ssa.Call)
-		return isK && k == 1 && isC && isBuiltinCall(lc, "len") && lc.Call.Args[0] == tab
+		return isK && k == 1 && isPairedLen(bo.X)
+	}
+	// `len(t) == 0`, `len(t) < 2`, `len(t) - len(t)%2 == 0`: a table without a complete pair contains nothing
+	isEmptyTest := func(cond ssa.Value, takenTrue bool) bool {
+		bo, ok := cond.(*ssa.BinOp)
+		if !ok || !isPairedLen(bo.X) {
+			return false
+		}
+		k, isK := constIntArg(bo.Y)
+		if !isK {
+			return false
+		}
+		switch {
+		case takenTrue && bo.Op == token.EQL && k == 0, takenTrue && bo.Op == token.LSS && k <= 2 && k >= 1, takenTrue && bo.Op == token.LEQ && k <= 1 && k >= 0:
+			return true
+		case !takenTrue && bo.Op == token.NEQ && k == 0, !takenTrue && bo.Op == token.GEQ && k <= 2 && k >= 1, !takenTrue && bo.Op == token.GTR && k <= 1 && k >= 0:
+			return true
+		}
+		return false
 	}
 	// normalise a comparison to "code OP elem[idx]" (OP as seen with code on the left)
 	type cmp struct {
@@ -917,6 +954,12 @@ func (c *Ctx) rangeLookupShape(f *ssa.Function, l *Loop) string {
 				okGuard = true
 			}
 		}
+		if !okGuard && len(b.Preds) == 1 {
+			p := b.Preds[0]
+			if iff, ok := p.Instrs[len(p.Instrs)-1].(*ssa.If); ok && isEmptyTest(iff.Cond, p.Succs[0] == b) {
+				okGuard = true
+			}
+		}
 		// a disjunction `a || b` reaches the return over two edges: accept when every predecessor edge is one of the two sound tests
 		if !okGuard && len(b.Preds) > 1 {
 			all := true
@@ -925,6 +968,9 @@ func (c *Ctx) rangeLookupShape(f *ssa.Function, l *Loop) string {
 				if !ok {
 					all = false
 					break
+				}
+				if isEmptyTest(iff.Cond, p.Succs[0] == b) {
+					continue
 				}
 				cm, ok := asCmp(iff.Cond)
 				if !ok {
